@@ -788,14 +788,28 @@ fn check_inner(line: &str, res: &str, t: &[&str], mut m: Vec<String>) -> Vec<Str
                 }
             }
             let fres = crate::ops::exec(&line.replacen(&format!(" {} ", src), " i5 ", 1));
-            // a failed read delivers no byte: apart from the I/O item itself, every item carries the position / spans it
-            // has on the stream that never fails
+            // a failed read delivers no byte: when the read fails BETWEEN two items (nothing consumed yet, or the bytes
+            // delivered so far end in white space outside a comment and are, on their own, a sequence of complete
+            // items), every item apart from the I/O item itself is the item the stream that never fails returns, with
+            // the same position / spans.  (A read that fails inside a token or a list makes the parser abandon what it
+            // had consumed; the items after that are other items - `#` lost from `#:k` leaves the keyword `:k`.)
             {
+                let kk = k.min(data.len());
+                let between = kk == 0 || ({
+                    let pre = &data[..kk];
+                    let last = pre[kk - 1];
+                    (last == b'\n' || (last == b' ' && !pre.contains(&b';')))
+                        && !crate::ops::exec(&format!("parse {} i5 {} {} {}", t[1], ro, api, hex(pre))).split(" | ").any(|i| i.starts_with("err") || i == "panic" || i == "io")
+                });
                 let ff: Vec<&str> = fres.split(" | ").collect();
                 let xx: Vec<&str> = items.iter().copied().filter(|i| *i != "io").collect();
-                if xx.len() <= ff.len() && xx.iter().zip(ff.iter()).any(|(a, b)| strip_pos(a) == strip_pos(b) && a != b) {
-                    m.push(format!("FAIL C19 after a failed read that delivered nothing, locations differ from the fault-free stream: {:?} vs {:?}", xx, ff));
-                    m.push("FAIL C11 after a failed read that delivered nothing, spans differ from the fault-free stream".into());
+                let trim = |v: &[&str]| -> Vec<String> { let mut w: Vec<String> = v.iter().map(|s| s.to_string()).collect(); while w.last().map_or(false, |s| s == "none") { w.pop(); } w };
+                let (xt, ft) = (trim(&xx), trim(&ff));
+                let same_calls = api.starts_with("h:") && { let c: Vec<char> = api[2..].chars().collect(); c.iter().all(|x| *x == c[0]) };
+                let nn = xt.len().min(ft.len());
+                if hit && between && same_calls && (xt[..nn] != ft[..nn] || xt.len() + 1 < ft.len() || xt.len() > ft.len()) && !items.iter().any(|i| *i == "panic") {
+                    m.push(format!("FAIL C19 after a failed read between two items, the items differ from the fault-free stream: {:?} vs {:?}", xt, ft));
+                    m.push("FAIL C11 after a failed read between two items, spans differ from the fault-free stream".into());
                 }
             }
             let fi: Vec<String> = fres.split(" | ").map(strip_pos).collect();
@@ -1188,7 +1202,8 @@ fn check_inner(line: &str, res: &str, t: &[&str], mut m: Vec<String>) -> Vec<Str
                 Prim::I(_, n) => v.as_i64() == Some(n) && v.as_u64() == (if n >= 0 { Some(n as u64) } else { None }) && v.as_f64() == Some(n as f64) && !v.is_f64(),
                 Prim::U(_, n) => v.as_u64() == Some(n) && v.as_i64() == (if n <= i64::MAX as u64 { Some(n as i64) } else { None }) && v.as_f64() == Some(n as f64) && !v.is_f64(),
                 Prim::F32(f) => v.as_i64().is_none() && v.as_u64().is_none() && v.is_f64() && (v.as_f64().map(|x| x.to_bits()) == Some((f as f64).to_bits()) || f.is_nan()),
-                Prim::F64(f) => v.as_i64().is_none() && v.as_u64().is_none() && v.is_f64() && v.as_f64().map(|x| x.to_bits()) == Some(f.to_bits()),
+                // (the result line spells every NaN `Dnan`: the payload of a NaN is not visible here)
+                Prim::F64(f) => v.as_i64().is_none() && v.as_u64().is_none() && v.is_f64() && (v.as_f64().map(|x| x.to_bits()) == Some(f.to_bits()) || (f.is_nan() && v.as_f64().map_or(false, f64::is_nan))),
                 Prim::B(b) => v.as_bool() == Some(b),
                 Prim::S(s) => v.as_str() == Some(s.as_str()),
                 Prim::C(c) => v.as_char() == Some(c),
@@ -1289,7 +1304,7 @@ pub fn depth_main(args: &[String]) -> i32 {
             "datum_cdr_owned" => { let t = text(n); let d = lexpr::datum::from_reader(t.as_bytes()).unwrap(); let (_, rest) = d.as_ref().as_pair().unwrap(); let owned: lexpr::Datum = rest.into(); let again = owned.clone(); assert!(owned == again); drop(owned); drop(again); std::mem::forget(d); }
             // association lists: a key found late, and a key that is absent (by name and by value)
             "alist" => {
-                let v = Value::append((0..n).map(|i| if i % 7 == 3 { elem(i) } else { Value::cons(Value::symbol(if i + 1 == n { "last" } else { "k" }), elem(i)) }), Value::Null);
+                let v = Value::append((0..n).map(|i| if i % 7 == 3 && i + 1 != n { elem(i) } else { Value::cons(Value::symbol(if i + 1 == n { "last" } else { "k" }), elem(i)) }), Value::Null);
                 assert!(v.get("last").is_some()); assert!(v.get("absent").is_none());
                 assert!(v.get(&Value::symbol("last")).is_some()); assert!(v.get(&Value::from(5)).is_none());
                 let _ = &v["absent"]; let _ = &v[&Value::symbol("last")];
